@@ -76,6 +76,41 @@ def go (pend : Bytes) : Bytes → Bytes
 /-- `data.decode(errors="replace").encode()` -/
 def san (b : Bytes) : Bytes := go [] b
 
+/-! ### the strict incremental decoder wsproto runs over received text frames
+    (`codecs.getincrementaldecoder("utf-8")().decode(payload, final)` in `MessageDecoder.process_frame`) -/
+
+/-- one byte, strict: `none` = UnicodeDecodeError -/
+def stepS (pend : Bytes) (x : UInt8) : Option (Bytes × Bytes) :=
+  match pend with
+  | [] => if seqLen x = 1 then some ([x], []) else if seqLen x = 0 then none else some ([], [x])
+  | b0 :: _ =>
+    if accepts pend x then
+      (if pend.length + 1 = seqLen b0 then some (pend ++ [x], []) else some ([], pend ++ [x]))
+    else none
+
+/-- (decoded bytes, bytes held back for the next call) -/
+def goS (pend : Bytes) : Bytes → Option (Bytes × Bytes)
+  | [] => some ([], pend)
+  | x :: xs =>
+    match stepS pend x with
+    | none => none
+    | some r => (goS r.2 xs).map (fun r2 => (r.1 ++ r2.1, r2.2))
+
+/-- `decoder.decode(chunk, final)`: with `final` an incomplete character at the end is an error -/
+def incDecode (pend chunk : Bytes) (final : Bool) : Option (Bytes × Bytes) :=
+  match goS pend chunk with
+  | none => none
+  | some r => if final && !r.2.isEmpty then none else some r
+
+/-- the frames of one text message through the decoder: data of each event, `none` = ParseFailed(1007) -/
+def decodeChunks (pend : Bytes) : List Bytes → Option (List Bytes × Bytes)
+  | [] => some ([], pend)
+  | [c] => (incDecode pend c true).map (fun r => ([r.1], r.2))
+  | c :: rest =>
+    match incDecode pend c false with
+    | none => none
+    | some r => (decodeChunks r.2 rest).map (fun r2 => (r.1 :: r2.1, r2.2))
+
 /-- a well-formed UTF-8 byte sequence for one code point (Unicode table 3-7) -/
 def wfChar (ch : Bytes) : Bool :=
   match ch with
@@ -335,6 +370,17 @@ def controlsIn (fromClient : Bool) : List Ev → List (Bool × Bytes)
 /-- no close event (close frame, EOF, protocol failure) in this event -/
 def Ev.noClose : Ev → Bool
   | .data _ evs => evs.all (fun e => !e.isClose)
+  | .inject _ _ _ => true
+
+/-- a close event occurs at most as the LAST event of a batch — what wsproto guarantees
+    (`_parse_more_gen` stops behind a close frame; EOF and a parse failure end the batch) -/
+def closeLast : List WsEv → Bool
+  | [] => true
+  | [_] => true
+  | e :: rest => !e.isClose && closeLast rest
+
+def Ev.closeLast : Ev → Bool
+  | .data _ evs => C28.closeLast evs
   | .inject _ _ _ => true
 
 /-- a burst of frames is one complete message: only the last frame has `message_finished` -/
